@@ -803,12 +803,20 @@ def run_prop(prop, tier, seed, proof, sigfilter=None):
                 p = common.write_case(prop, name, small, tier, seed, ext="scn")
                 res.impl_violations.append((f"{prop.lower()}:{v2[0][0]}", f"implementation violates {prop}: {v2[0][1]}", p))
             elif div:
+                nmain = sum(1 for l in lines if l.strip() == "main")
                 def still(o):
+                    if sum(1 for l in o if l.strip() == "main") != nmain:
+                        return False        # every thread still runs its loop: the scenario stays a meaningful program
                     v, out2 = impl_fails(o)
-                    return (not v) and bool(replay_model(out2)[0])
+                    return bool(v) or bool(replay_model(out2)[0])
                 small = common.shrink(lines, still, keep_head=1, budget=80)
                 p = common.write_case(prop, name, small, tier, seed, ext="scn")
-                res.divergences.append((f"model Ivy.Work does not replay iv_work.c's log: {div[0][:500]}", p))
+                v3 = [x for x in impl_fails(small)[0] if not x[0].startswith(("harness", "crash"))]
+                if v3:
+                    # a variant of the diverging scenario on which the oracle rejects the implementation: a concrete failing input
+                    res.impl_violations.append((f"{prop.lower()}:{v3[0][0]}", f"implementation violates {prop}: {v3[0][1]}", p))
+                else:
+                    res.divergences.append((f"model Ivy.Work does not replay iv_work.c's log: {div[0][:500]}", p))
             if len(res.impl_violations) - len([1 for k in known_hits if known_hits[k]]) + len(res.divergences) >= 4:
                 stop = True
     res.extra["known_finding_hits"] = known_hits
